@@ -59,6 +59,30 @@ func Register(p *Property) {
 	registry[p.ID] = p
 }
 
+// extras are supplementary rule sets added to a registered property (rules
+// written after the property file, e.g. to cover an independently seeded change).
+var extras = map[string][]func(c *Ctx){}
+
+// extraClauses is appended to the property's published clause text.
+var extraClauses = map[string]string{}
+
+// ExtraClause records what a supplementary rule set decides.
+func ExtraClause(id, text string) { extraClauses[id] += " " + text }
+
+// AllClauses is the published description of what is decided.
+func (p *Property) AllClauses() string { return p.Clauses + extraClauses[p.ID] }
+
+// RegisterExtra appends a rule set to property id.
+func RegisterExtra(id string, run func(c *Ctx)) { extras[id] = append(extras[id], run) }
+
+// RunAll runs the property's rule set and its supplementary rule sets.
+func (p *Property) RunAll(c *Ctx) {
+	p.Run(c)
+	for _, f := range extras[p.ID] {
+		f(c)
+	}
+}
+
 // Lookup returns a registered property.
 func Lookup(id string) *Property { return registry[id] }
 
@@ -203,7 +227,7 @@ func RunProperty(p *Prog, prop *Property, tier string, seed int, evidencePath, f
 				c.Undecided("internal", "panic", fmt.Sprintf("checker panic: %v", r))
 			}
 		}()
-		prop.Run(c)
+		prop.RunAll(c)
 	}()
 	if prop.Floor > 0 && len(c.Obls) < prop.Floor {
 		c.Undecided("floor", "obligation-count", fmt.Sprintf("%d obligations generated, hand-confirmed floor is %d", len(c.Obls), prop.Floor))
@@ -274,7 +298,7 @@ func RunProperty(p *Prog, prop *Property, tier string, seed int, evidencePath, f
 		"evaluations":         len(c.Obls),
 		"distinct_nontrivial": nontriv,
 		"rule":                "one case per (rule, construct) obligation generated from /repo's current source; non-trivial = discharge needed a dominance/ownership/dataflow/table argument rather than a mere existence lookup; distinct by key",
-		"explanation":         "DECIDED (structural necessary conditions only, not the behaviour): " + prop.Clauses + " NOT COVERED: " + prop.NotCovered,
+		"explanation":         "DECIDED (structural necessary conditions only, not the behaviour): " + prop.AllClauses() + " NOT COVERED: " + prop.NotCovered,
 		"samples":             samples,
 		"rules_applied":       rules,
 		"known_findings":      len(known),
